@@ -28,6 +28,10 @@
     c07 unify <sexp>           → same output format as the hook
         `roto::verif_hooks::c07::unify_script`
     c07 decl <scope:id:kind,…> → ok | err <index of the rejected insertion>
+    c07 compat <t:u,…|never>        → typable | untypable   (all pairs `Typing.compat`)
+    c07 rec fits <fields> <fields>  → typable | untypable   (`Typing.recLitFits`: record literal vs record type)
+    c07 rec field <fields> <f> <ty> → typable | untypable   (`Typing.recFieldFits`)
+    c07 lit <n> <stmt,…>            → typable | untypable   (`Typing.ltypable`)
 -/
 import Driver.Util
 import RotoV.Model.Typing
@@ -435,8 +439,39 @@ def parseLStmt (s : String) : Option LStmt :=
     | _ => none
   else none
 
+/-! anonymous records: fields `name:ty,…` with `ty ::= int_ | float_ | bool | str | u8 | … | f32 | f64` -/
+def parseLitTy (s : String) : Option Ty :=
+  match s with
+  | "int_" => some (.anyInt false) | "float_" => some .anyFloat | "bool" => some .bool | "str" => some .string
+  | s => parseScalarTy s
+
+def parseFieldsSpec (s : String) : Option (List (Nat × Ty)) :=
+  if s == "-" then some [] else
+  (csv s).mapM fun f => match f.splitOn ":" with
+    | [n, t] => do pure (← n.toNat?, ← parseLitTy t)
+    | _ => none
+
+def yn (b : Bool) : String := if b then "typable" else "untypable"
+
 def handle (args : List String) : String :=
   match args with
+  | ["compat", pairs] =>
+    -- every listed pair of (possibly flexible) types must be compatible (`Typing.compat`)
+    if pairs == "never" then "untypable" else
+    let ps := (csv pairs).mapM fun s => match s.splitOn ":" with
+      | [a, b] => do pure (← parseLitTy a, ← parseLitTy b)
+      | _ => none
+    match ps with
+    | some ps => yn (ps.all fun p => compat p.1 p.2)
+    | none => "bad-op"
+  | ["rec", "fits", lit, target] =>
+    match parseFieldsSpec lit, parseFieldsSpec target with
+    | some l, some t => yn (recLitFits l t)
+    | _, _ => "bad-op"
+  | ["rec", "field", lit, f, ty] =>
+    match parseFieldsSpec lit, f.toNat?, parseLitTy ty with
+    | some l, some f, some ty => yn (recFieldFits l f ty)
+    | _, _, _ => "bad-op"
   | ["lit", n, prog] =>
     match n.toNat?, (csv prog).mapM parseLStmt with
     | some n, some prog => if n ≤ 4 then (if ltypable n prog then "typable" else "untypable") else "bad-op"
